@@ -10,6 +10,7 @@ import (
 	"strconv"
 	"strings"
 
+	"golang.org/x/tools/go/packages"
 	"golang.org/x/tools/go/ssa"
 
 	"slockverif/internal/core"
@@ -18,7 +19,7 @@ import (
 func init() { Registry["C15"] = checkC15 }
 
 func checkC15(p *core.Prog, r *core.Report) {
-	r.Explanation = "Decides structural necessary conditions of the atomic-register behaviour: (R1) on every path of Lock/UnLock/wakeUpWaitLock that applies a value operation (ProcessLockData) and then answers, the reply's value argument is a GetLockData() result obtained before the operation, inside the same shard-mutex section; (R2) refusal replies are reached without ProcessLockData/ProcessRecoverLockData on the path; (R3) the operation switches of ProcessLockData and ProcessRecoverLockData have a case for every LOCK_DATA_COMMAND_TYPE_* constant; (R4) the Redis-style command names are registered identically in the leader and follower text protocols and in the converter; (R5) published value frames are immutable: no element store, copy destination or append base in the value-operation code derives from the manager's current frame (replies, undo records and the log still reference it). (R6) the pre-operation value kept for a pending request (LockData.recoverData) is read before the call that clears it, never after. (R7) the Redis-style result writers answer with an error line only on a path where the engine's result code was tested non-zero (an applied operation is never reported as refused). (R8) the data frame a binary request carries is a private buffer: Stream.ReadBytesFrame returns only freshly made slices and the decoder adopts only those (the value operations keep the frame as the stored value). (R9) on a grant that adds a holder the key's depth is incremented before the request's value operation runs (the operation reads the depth for first/last-holder-only operations). NOT decided: the byte surgery of each operation, numeric overflow, the Redis-style answers."
+	r.Explanation = "Decides structural necessary conditions of the atomic-register behaviour: (R1) on every path of Lock/UnLock/wakeUpWaitLock that applies a value operation (ProcessLockData) and then answers, the reply's value argument is a GetLockData() result obtained before the operation, inside the same shard-mutex section; (R2) refusal replies are reached without ProcessLockData/ProcessRecoverLockData on the path; (R3) the operation switches of ProcessLockData and ProcessRecoverLockData have a case for every LOCK_DATA_COMMAND_TYPE_* constant; (R4) the Redis-style command names are registered identically in the leader and follower text protocols and in the converter; (R5) published value frames are immutable: no element store, copy destination or append base in the value-operation code derives from the manager's current frame (replies, undo records and the log still reference it). (R6) the pre-operation value kept for a pending request (LockData.recoverData) is read before the call that clears it, never after. (R7) the Redis-style result writers answer with an error line only on a path where the engine's result code was tested non-zero (an applied operation is never reported as refused). (R8) the data frame a binary request carries is a private buffer: Stream.ReadBytesFrame returns only freshly made slices and the decoder adopts only those (the value operations keep the frame as the stored value). (R9) on a grant that adds a holder the key's depth is incremented before the request's value operation runs (the operation reads the depth for first/last-holder-only operations). (R10) no comparison mixes the request-type enumeration with the value-operation enumeration (one does: known finding, PIPELINE). NOT decided: the byte surgery of each operation, numeric overflow, the Redis-style answers."
 	r.Assumptions = []string{"Go type checker and go/ssa are correct for /repo", "GetLockData returns the current frame without copying (so R5 matters)"}
 	c15R1(p, r)
 	c15R2(p, r)
@@ -29,6 +30,7 @@ func checkC15(p *core.Prog, r *core.Report) {
 	c15R7(p, r)
 	c15R8(p, r)
 	c15R9(p, r)
+	c15R10(p, r)
 }
 
 func c15R1(p *core.Prog, r *core.Report) {
@@ -829,4 +831,132 @@ func c15R9(p *core.Prog, r *core.Report) {
 	if n == 0 {
 		r.Fail("C15/R9: no grant path with a value operation found")
 	}
+}
+
+// c15R10: two small-integer enumerations live side by side: the request type
+// of a frame (COMMAND_LOCK, COMMAND_UNLOCK, ... - field CommandType of
+// protocol.Command / ResultCommand) and the value-operation type
+// (LOCK_DATA_COMMAND_TYPE_SET, ... PIPELINE - field CommandType of the value
+// frames, commandType of the stored value). Their numbers overlap, so a
+// comparison across the two compiles and silently tests something else.
+func c15R10(p *core.Prog, r *core.Report) {
+	const rule = "C15/R10"
+	r.Rule(rule, "no comparison mixes the request-type enumeration (COMMAND_*) with the value-operation enumeration (LOCK_DATA_COMMAND_TYPE_*)", 2)
+	proto, srv := p.Pkg("protocol"), p.Pkg("server")
+	if proto == nil || srv == nil {
+		r.Fail("C15/R10: packages not loaded")
+		return
+	}
+	fieldDomain := map[types.Object]string{}
+	mark := func(pk *packages.Package, typeName, field, dom string) {
+		obj := pk.Types.Scope().Lookup(typeName)
+		if obj == nil {
+			return
+		}
+		st, ok := obj.Type().Underlying().(*types.Struct)
+		if !ok {
+			return
+		}
+		for i := 0; i < st.NumFields(); i++ {
+			if st.Field(i).Name() == field {
+				fieldDomain[st.Field(i)] = dom
+			}
+		}
+	}
+	mark(proto, "Command", "CommandType", "request type")
+	mark(proto, "ResultCommand", "CommandType", "request type")
+	mark(proto, "LockCommandData", "CommandType", "value operation")
+	mark(proto, "LockResultCommandData", "CommandType", "value operation")
+	mark(srv, "LockManagerData", "commandType", "value operation")
+	if len(fieldDomain) < 5 {
+		r.Fail("C15/R10: enumeration-carrying fields not found (%d of 5)", len(fieldDomain))
+		return
+	}
+	n := 0
+	for _, pk := range []*packages.Package{proto, srv} {
+		domain := func(e ast.Expr) string {
+			for {
+				if pe, ok := e.(*ast.ParenExpr); ok {
+					e = pe.X
+					continue
+				}
+				break
+			}
+			switch t := e.(type) {
+			case *ast.SelectorExpr:
+				if obj := pk.TypesInfo.Uses[t.Sel]; obj != nil {
+					if d, ok := fieldDomain[obj]; ok {
+						return d
+					}
+					if c, ok := obj.(*types.Const); ok {
+						return constDomain(c.Name())
+					}
+				}
+			case *ast.Ident:
+				if c, ok := pk.TypesInfo.Uses[t].(*types.Const); ok {
+					return constDomain(c.Name())
+				}
+			}
+			return ""
+		}
+		for _, file := range pk.Syntax {
+			fname := p.Fset.Position(file.Pos()).Filename
+			if strings.HasSuffix(fname, "_test.go") {
+				continue
+			}
+			var fnName string
+			ast.Inspect(file, func(nd ast.Node) bool {
+				switch t := nd.(type) {
+				case *ast.FuncDecl:
+					fnName = t.Name.Name
+				case *ast.BinaryExpr:
+					if t.Op != token.EQL && t.Op != token.NEQ {
+						return true
+					}
+					dx, dy := domain(t.X), domain(t.Y)
+					if dx == "" || dy == "" {
+						return true
+					}
+					n++
+					if dx != dy {
+						r.Violate(rule, fmt.Sprintf("%s.%s: %s", pk.Types.Name(), fnName, types.ExprString(t)), p.Pos(t.Pos()), "the comparison "+types.ExprString(t)+" puts a "+dx+" value against a "+dy+" value: the two enumerations share their small numbers, so this compiles and tests something unrelated to what it reads as", nil)
+					}
+				case *ast.SwitchStmt:
+					if t.Tag == nil {
+						return true
+					}
+					dt := domain(t.Tag)
+					if dt == "" {
+						return true
+					}
+					for _, cc := range t.Body.List {
+						for _, e := range cc.(*ast.CaseClause).List {
+							if de := domain(e); de != "" {
+								n++
+								if de != dt {
+									r.Violate(rule, fmt.Sprintf("%s.%s: switch %s case %s", pk.Types.Name(), fnName, types.ExprString(t.Tag), types.ExprString(e)), p.Pos(e.Pos()), "a switch over a "+dt+" has a case of the "+de+" enumeration", nil)
+								}
+							}
+						}
+					}
+				}
+				return true
+			})
+		}
+	}
+	if n == 0 {
+		r.Fail("C15/R10: no comparison of either enumeration found")
+		return
+	}
+	r.Hold(rule, "comparisons of the two enumerations", "-", fmt.Sprintf("%d comparisons and switch cases examined", n))
+}
+
+func constDomain(name string) string {
+	switch {
+	case strings.HasPrefix(name, "LOCK_DATA_COMMAND_TYPE_"):
+		return "value operation"
+	case strings.HasPrefix(name, "COMMAND_"):
+		return "request type"
+	}
+	return ""
 }
